@@ -605,8 +605,9 @@ def _is_direct_lvalue(l):
 # documented exceptions (README "Thread Safety", cJSON.h comments): object -> who may write / read it
 STATIC_POLICY = {
     # name: (unit, writers allowed, readers allowed (None = anyone), reason)
-    'global_error': ('cJSON.c', {'cJSON_ParseWithLengthOpts'}, {'cJSON_GetErrorPtr', 'cJSON_ParseWithLengthOpts'},
-                     'documented: cJSON_GetErrorPtr is not thread safe'),
+    'global_error': ('cJSON.c', {'cJSON_ParseWithLengthOpts'}, {'cJSON_GetErrorPtr'},
+                     'documented: cJSON_GetErrorPtr is not thread safe; the parser only stores into it, so no per-call '
+                     'result depends on what another thread left there'),
     'global_hooks': ('cJSON.c', {'cJSON_InitHooks'}, None, 'documented: cJSON_InitHooks before threads start'),
     'version': ('cJSON.c', {'cJSON_Version'}, {'cJSON_Version'},
                 'formats the same constant text on every call; not reachable from any other API function'),
@@ -650,8 +651,15 @@ def eff4(units, R):
             written_nodes = set()
             for (x, r, how) in _writes_in(fn, u, non_const_param_of):
                 writers.setdefault((uname, r['n']), {}).setdefault(fn.name, []).append((x, how))
+            # a reference that is (the root of) the left-hand side of a plain assignment is a write, not a read
+            lhs_roots = set()
             for x in fn.nodes():
-                if x.get('k') == 'ref' and x.get('dk') in ('global', 'slocal'):
+                if x.get('k') == 'bin' and x['op'] == '=':
+                    r0 = _lhs_root(x['l'])
+                    if r0.get('k') == 'ref' and _is_direct_lvalue(strip_casts(x['l'])):
+                        lhs_roots.add(r0['id'])
+            for x in fn.nodes():
+                if x.get('k') == 'ref' and x.get('dk') in ('global', 'slocal') and x['id'] not in lhs_roots:
                     readers.setdefault((uname, x['n']), set()).add(fn.name)
 
     for (uname, name, d, const, lfn) in objects:
@@ -686,7 +694,8 @@ def eff4(units, R):
         if allowed_r is not None:
             for fnn in sorted(readers.get((uname, name), ())):
                 R.ob('EFF4', u.functions[fnn], None, 'access to %s' % name, fnn in allowed_r,
-                     'documented accessor' if fnn in allowed_r else 'reads %s outside %s' % (name, sorted(allowed_r)),
+                     'documented accessor' if fnn in allowed_r else
+                     'reads %s (a value another thread may have written) outside %s' % (name, sorted(allowed_r)),
                      key='access:%s' % name)
 
     # transitive: which public functions can reach a writer of each documented object
